@@ -6,7 +6,11 @@
 //   - utils.JobsOrderByQueues over generated queue hierarchies (2-6 competing
 //     leaf queues, 1-3 levels) on random PushJob / PopNextJob programs;
 //   - the real allocate action on generated clusters through test_utils, recording
-//     which pending jobs were placed and in which order.
+//     which pending jobs were placed and in which order; jobs carry an explicit
+//     spec.preemptibility independent of their priority, quotas are partly or fully
+//     used by running non-preemptible jobs, and the real capacity gates
+//     (Session.IsJobOverQueueCapacityFn, Session.IsNonPreemptibleJobOverQueueQuotaFn)
+//     are asked about every pending job when the session opens (alloc.go).
 //
 // Every case is printed as a Coq term of type `case` (coq/Run/C16.v).
 package c16
@@ -44,7 +48,11 @@ type jobSpec struct {
 	Sub   [][2]int // per pod set: (active allocated pods, minAvailable)
 	CTime int64    // seconds after the base time
 	Shape int
+	Pre   int     // PodGroupInfo.Preemptibility as it is supposed to be: 0 unset, 1 preemptible, 2 non-preemptible
+	Req   []int64 // request of the tasks to allocate (cpu, memory, gpu), thousandths; allocate runs only
 }
+
+var preTerm = []string{"PUnset", "PPreemptible", "PNonPreemptible"}
 
 type queueSpec struct {
 	ID     int
@@ -62,8 +70,9 @@ func (j jobSpec) term() string {
 	for i, s := range j.Sub {
 		subs[i] = u.Pair(u.Z(int64(s[0])), u.Z(int64(s[1])))
 	}
-	return fmt.Sprintf("{| j_uid := %s; j_queue := %s; j_prio := %s; j_subgroups := %s; j_ctime := %s; j_shape := %s |}",
-		u.Z(int64(j.UID)), u.Z(int64(j.Queue)), u.Z(int64(j.Prio)), u.List(subs), u.Z(j.CTime), u.Z(int64(j.Shape)))
+	return fmt.Sprintf("{| j_uid := %s; j_queue := %s; j_prio := %s; j_subgroups := %s; j_ctime := %s; j_shape := %s; j_pre := %s; j_req := %s |}",
+		u.Z(int64(j.UID)), u.Z(int64(j.Queue)), u.Z(int64(j.Prio)), u.List(subs), u.Z(j.CTime), u.Z(int64(j.Shape)),
+		preTerm[j.Pre], u.ListOf(j.Req, u.Z))
 }
 
 func (j jobSpec) short() string {
@@ -258,6 +267,9 @@ var usualPrios = []int32{40, 50, 50, 60, 75, 100, 100, 125}
 var widePrios = []int32{-2147483648, -2000000000, -1000000000, -1, 0, 50, 1000000000, 2000000000, 2000001000, 2147483647}
 
 var prios = usualPrios
+
+// allocate runs: the same, plus the two sides of the non-preemptible threshold (100)
+var allocWidePrios = append(append([]int32{}, widePrios...), 99, 100)
 
 // PickPrios chooses the priority pool of the next program: every 4th program
 // draws from the whole int32 range.
@@ -634,7 +646,8 @@ func Run(dir string, seed uint64, n int, tier string) error {
 	// corpus: the depth-2 witness through the real allocate action (one queue, three
 	// identical one-GPU jobs of priority 75 / 60 / 50, room for all). The bounded
 	// queue must keep the two best whatever order InitializeWithJobs visits Go's map in.
-	wc := cluster{Nodes: []int{8}, Depts: []int{1001}, Queues: []alQueue{{ID: 1, Dept: 1001, Deserved: 8, Limit: -1, Weight: 1}},
+	wc := cluster{Nodes: []int{8}, Depts: []alDept{{ID: 1001, Deserved: -1, Limit: -1}},
+		Queues:    []alQueue{{ID: 1, Dept: 1001, Deserved: 8, Limit: -1, Weight: 1, DeservedCPU: -1, LimitCPU: -1}},
 		Templates: []template{{Tasks: 1, GPUs: 1, CPUs: 500}},
 		Jobs:      []alJob{{UID: 1, Queue: 1, Prio: 75}, {UID: 2, Queue: 1, Prio: 60}, {UID: 3, Queue: 1, Prio: 50}}}
 	for _, d := range []int{2, scheduler_util.QueueCapacityInfinite} {
@@ -644,16 +657,38 @@ func Run(dir string, seed uint64, n int, tier string) error {
 		}
 		emitAL(out, "corpus:witness", wc, d, res)
 	}
+	// corpus: an explicit spec.preemptibility wins over the priority. Queue 2 has a quota of one GPU,
+	// taken by a running non-preemptible job; two identical pending jobs of queue 2 say "preemptible",
+	// one with priority 125 (or 100, 99), one with priority 50; one GPU is left for them after queue 1's
+	// in-quota job. The preemptible jobs may go over quota, so the higher priority gets the GPU; and the
+	// mirror image: two jobs that say "non-preemptible" with priority 50 and 40 are both refused.
+	for _, hi := range []int32{125, 100, 99} {
+		pc := cluster{Nodes: []int{3}, Depts: []alDept{{ID: 1001, Deserved: -1, Limit: -1}},
+			Queues: []alQueue{{ID: 1, Dept: 1001, Deserved: 1, Limit: -1, Weight: 1, DeservedCPU: -1, LimitCPU: -1},
+				{ID: 2, Dept: 1001, Deserved: 1, Limit: -1, Weight: 1, DeservedCPU: -1, LimitCPU: -1}},
+			Templates: []template{{Tasks: 1, GPUs: 1, CPUs: 500}},
+			Jobs: []alJob{{UID: 1, Queue: 2, Prio: hi, Spec: specPreemptible}, {UID: 2, Queue: 2, Prio: 50, Spec: specPreemptible},
+				{UID: 3, Queue: 1, Prio: 50}, {UID: 4, Queue: 2, Prio: 50, Spec: specNonPreemptible, Age: 1},
+				{UID: 5, Queue: 2, Prio: 40, Spec: specNonPreemptible},
+				{UID: 501, Queue: 2, Prio: 100, Template: -1, Running: "node0", RunGPUs: 1}}}
+		res, err := al.run(pc, scheduler_util.QueueCapacityInfinite)
+		if err != nil {
+			return fmt.Errorf("allocate corpus: %w", err)
+		}
+		emitAL(out, fmt.Sprintf("corpus:explicit-preemptible-%d-vs-50", hi), pc, scheduler_util.QueueCapacityInfinite, res)
+	}
 	for i := 0; i < nAL; i++ {
 		r := root.Fork(uint64(2000000 + i))
 		depth := scheduler_util.QueueCapacityInfinite
 		if i%5 == 4 {
 			depth = r.Range(1, 4)
 		}
+		pool := allocPrios
 		if len(PickPrios(r)) == len(widePrios) {
 			out.Count("al:wide-priorities")
+			pool = allocWidePrios
 		}
-		c := genCluster(r)
+		c := genCluster(r, pool)
 		res, err := al.run(c, depth)
 		if err != nil {
 			return fmt.Errorf("allocate case %d: %w", i, err)
@@ -663,7 +698,7 @@ func Run(dir string, seed uint64, n int, tier string) error {
 	if al.reporter.failed > 0 {
 		out.Stats["gomock_reports"] = al.reporter.failed
 	}
-	out.Stats["rule"] = "one splitmix64 stream; after a fixed corpus (ties, elastic states, depth 0/1/2 witnesses): 40% PriorityQueue programs (push/pop/Fix(i)/re-prioritise-top+Fix(0), 4-36 ops then drained), 45% JobsOrderByQueues programs (2-6 leaf queues on 1-3 levels, 3-24 initial pushes, then pops / pushes / re-pushes with progress, then drained), 15% real allocate runs (1-4 nodes, 2-6 leaf queues in 1-2 departments, 4-28 pending jobs from 2-3 templates, deserved quotas and limits); every program draws its priorities from {40,50,60,75,100,125} or, one in four, from the whole int32 range of a PriorityClass value (-2^31 .. 2^31-1, system classes included); every 4th queue program and every 5th allocate run uses a finite depth (label prefix finite-depth; checked like all others); non-trivial = PQ: >=3 pushes and >=2 pops; JO: jobs in >=2 queues and >=4 pushes; allocate: >=1 comparable pair (same leaf queue and shape) with at least one job placed and one not"
+	out.Stats["rule"] = "one splitmix64 stream; after a fixed corpus (ties, elastic states, depth 0/1/2 witnesses; allocate: the depth-2 witness, and three clusters where two identical pending jobs that say preemptible, priority 125/100/99 and 50, compete for the last GPU of a queue whose quota a running non-preemptible job has taken): 40% PriorityQueue programs (push/pop/Fix(i)/re-prioritise-top+Fix(0), 4-36 ops then drained), 45% JobsOrderByQueues programs (2-6 leaf queues on 1-3 levels, 3-24 initial pushes, then pops / pushes / re-pushes with progress, then drained), 15% real allocate runs: 1-4 nodes of 2-8 GPUs, 1-2 departments (one in three with a GPU quota, one in four with a limit), 2-6 leaf queues with GPU quotas 0..half the cluster, one in three with a GPU limit at or just above its usage, some with cpu quotas / limits; running jobs first: in two of three queues non-preemptible running jobs use the queue's GPU quota fully (2 in 5), minus one, plus one or partly, plus preemptible running jobs over quota, at least a third of the cluster left free; 4-28 pending whole-GPU gang jobs from 2-3 templates, half of them in one hot queue and most of those of one template and one preemptibility; every job (running or pending) has spec.preemptibility preemptible / non-preemptible / unset, drawn independently of its priority (unset only when the priority alone gives the wanted preemptibility), so explicit-preemptible jobs at or above 100 and explicit-non-preemptible jobs below 100 are as frequent as the derived ones; priorities from {40,50,60,75,99,100,125} or, one in four, from the whole int32 range of a PriorityClass value (-2^31 .. 2^31-1, system classes included) plus 99 and 100; PQ/JO programs draw from {40,50,60,75,100,125} or the int32 range; every 4th queue program and every 5th allocate run uses a finite depth (label prefix finite-depth; checked like all others); comparable = same leaf queue, template, request and supposed preemptibility (explicit value, else derived from the priority as CalculatePreemptibility does; never PodGroupInfo.IsPreemptibleJob); non-trivial = PQ: >=3 pushes and >=2 pops; JO: jobs in >=2 queues and >=4 pushes; allocate: >=1 comparable pair with one job placed and one not"
 	return out.Flush()
 }
 
